@@ -12,6 +12,7 @@ import (
 
 func dependsOn(v ssa.Value, pred func(ssa.Value) bool) bool {
 	seen := map[ssa.Value]bool{}
+	entered := map[*ssa.Function]bool{}
 	var walk func(v ssa.Value) bool
 	walk = func(v ssa.Value) bool {
 		if v == nil || seen[v] {
@@ -77,6 +78,29 @@ func dependsOn(v ssa.Value, pred func(ssa.Value) bool) bool {
 				}
 			}
 		}
+		// the result of a module function depends on what its returns depend on (helpers extracted
+		// from a longer function keep the dependence); each callee is entered once, four deep at most
+		if cl, ok := v.(*ssa.Call); ok {
+			if callee := cl.Call.StaticCallee(); callee != nil && inRepo(callee) && len(callee.Blocks) > 0 && !entered[callee] && len(entered) < 4 {
+				entered[callee] = true
+				for _, b := range callee.Blocks {
+					for _, in := range b.Instrs {
+						if ret, isRet := in.(*ssa.Return); isRet {
+							for _, res := range ret.Results {
+								if walk(res) {
+									return true
+								}
+							}
+						}
+					}
+				}
+			}
+		}
+		if ex, ok := v.(*ssa.Extract); ok {
+			if walk(ex.Tuple) {
+				return true
+			}
+		}
 		if in, ok := v.(ssa.Instruction); ok {
 			for _, op := range in.Operands(nil) {
 				if op != nil && *op != nil && walk(*op) {
@@ -118,6 +142,7 @@ func controllingConds(b *ssa.BasicBlock) []ssa.Value {
 
 // isFieldLoad: v is a load of field `field` of struct type tn (short name).
 func isFieldLoad(v ssa.Value, tn, field string) bool {
+	v = seeThroughGetter(v)
 	u, ok := v.(*ssa.UnOp)
 	if !ok || u.Op != token.MUL {
 		return false
@@ -164,6 +189,7 @@ func lenMinusField(v ssa.Value, tn, field string) (int64, bool) {
 
 // stackElemLoad recognises a load of <tn.field>[len(<tn.field>) - k]; returns k.
 func stackElemLoad(v ssa.Value, tn, field string) (int64, bool) {
+	v = seeThroughGetter(v)
 	u, ok := v.(*ssa.UnOp)
 	if !ok || u.Op != token.MUL {
 		return 0, false
@@ -173,4 +199,27 @@ func stackElemLoad(v ssa.Value, tn, field string) (int64, bool) {
 		return 0, false
 	}
 	return lenMinusField(ia.Index, tn, field)
+}
+
+// seeThroughGetter: a call to a module function that is a single block of reads ending in
+// `return <expr>` stands for that expression: `p.active()` for `p.conds[len(p.conds)-1]`,
+// `k.waiting()` for `k.mustWait`. The recognisers of this file match values by the type and
+// field they read, not by identity, so the callee's own value can be handed to them.
+func seeThroughGetter(v ssa.Value) ssa.Value {
+	for i := 0; i < 2; i++ {
+		cl, ok := v.(*ssa.Call)
+		if !ok {
+			return v
+		}
+		callee := cl.Call.StaticCallee()
+		if callee == nil || !inRepo(callee) || len(callee.Blocks) != 1 || !readOnlyLeaf(callee) {
+			return v
+		}
+		ret, ok := callee.Blocks[0].Instrs[len(callee.Blocks[0].Instrs)-1].(*ssa.Return)
+		if !ok || len(ret.Results) != 1 {
+			return v
+		}
+		v = ret.Results[0]
+	}
+	return v
 }
